@@ -230,6 +230,35 @@ fn c10_ttc_two_members() {
     }
 }
 
+/// A collection with a single member still checks the member index.
+// @bound 48-byte file: ttcf header with numFonts = 1, member offset and member contents symbolic; member index any usize
+#[kani::proof]
+#[kani::unwind(8)]
+fn c10_ttc_one_member() {
+    const SIZE: usize = 48;
+    let mut buf: [u8; SIZE] = kani::any();
+    put32(&mut buf, 0, TTCF);
+    put16(&mut buf, 4, 1);
+    put32(&mut buf, 8, 1);
+    let i: usize = kani::any();
+    let scope = ReadScope::new(&buf);
+    let font = scope.read::<OpenTypeFont<'_>>().unwrap();
+    match font.table_provider(i) {
+        Ok(provider) => {
+            assert!(i == 0);
+            let off = be32(&buf, 12) as usize;
+            assert!(off + 12 <= SIZE && provider.sfnt_version() == be32(&buf, off));
+            kani::cover!(true, "the only member");
+        }
+        Err(e) => {
+            if i >= 1 {
+                assert!(e == ParseError::BadIndex);
+                kani::cover!(true, "index beyond a one-font collection");
+            }
+        }
+    }
+}
+
 macro_rules! woff_harness {
     ($name:ident, $nrec:expr, $size:expr) => {
         #[kani::proof]
